@@ -89,6 +89,7 @@ def run_jobs(ctx, jobs, parallel=3):
             j.result = f.result()
     for j in jobs:
         ctx.add_tlc(j.name, j.result)
+        log("tlc %-20s %-9s distinct=%-8d %.1fs" % (j.name, j.result.status, j.result.distinct, j.result.wall))
     return {j.name: j.result for j in jobs}
 
 
@@ -255,11 +256,13 @@ def views_jobs(ctx):
     t3 = "TypesAll" if thorough else "Types3"
     jobs = [
         # exhaustive model checking (no history variable)
-        Job("views-mc-pairs", "Views", views_cfg(t2, "Pats3", "UnitSel2", "MSels4", "Shapes2", "INamesAll", "IUnits2",
-                                                 "Meters2", "Attrs1", 2, 1, False, VIEW_INVS), workers=4, coverage=True),
-        Job("views-mc-select", "Views", views_cfg(t3, "PatsAll", "UnitSelAll", "MSelsAll", "Shape1", "INamesAll",
+        Job("views-mc-pairs", "Views", views_cfg(t2, "Pats3", "UnitSel2", "MSels4" if thorough else "MSels3", "Shapes2",
+                                                 "INamesAll", "IUnits2" if thorough else "IUnit1", "Meters2", "Attrs1",
+                                                 2, 1, False, VIEW_INVS), workers=4, coverage=True),
+        Job("views-mc-select", "Views", views_cfg(t2, "PatsAll", "UnitSelAll", "MSelsAll", "Shape1", "INamesAll",
                                                   "IUnitsAll", "MetersAll", "Attrs1", 1, 1, False, VIEW_INVS), workers=3),
-        Job("views-mc-shape", "Views", views_cfg("TypesAll", "Pats3", "UnitSel2", "MSelAny", "ShapesAll", "IName1",
+        Job("views-mc-shape", "Views", views_cfg("TypesAll", "Pats3" if thorough else "Pats2",
+                                                 "UnitSel2" if thorough else "UnitSelAny", "MSelAny", "ShapesAll", "IName1",
                                                  "IUnit1", "Meter1", "AttrsAll", 1, 1, False, VIEW_INVS), workers=3),
         # sweep exports: every selector / every shape / every pair over a product domain
         Job("views-g-select", "Views", views_cfg(t2, "PatsAll", "UnitSelAll", "MSelsAll", "Shape1", "INamesAll",
@@ -482,7 +485,7 @@ def scope_replay(ctx, exe, results):
 def scope_traces(ctx, exe):
     """code -> spec: long random histories of real providers validated by ScopeConfigTrace.tla."""
     thorough = ctx.tier == "thorough"
-    nexec, nops = (1500, 60) if thorough else (300, 50)
+    nexec, nops = (1500, 60) if thorough else (200, 40)
     known = sorted(d for d in SCOPE_DEVS if d in ctx.known_devs())
     cfg = _cfg(ctx, "sctrace.cfg",
                "CONSTANTS\n  SignalSet <- SignalsAll  MatcherSet <- Matchers3  ScopeSet <- Scopes3\n"
@@ -555,15 +558,21 @@ def run(ctx):
                          "distinct_nontrivial: distinct (abstract name/unit case[, byte]) + distinct (view list, instrument) pairs + "
                          "distinct scope behaviours + validated executions")
     exe = build.harness("c19_replay", ["c19_main.cc", "c19_names.cc", "c19_views.cc", "c19_scopes.cc"], "asan")
+    log("harness built at %.1fs" % ctx.timer.s())
     jobs = names_jobs(ctx) + views_jobs(ctx) + scope_jobs(ctx)
     # longest first
     order = {"views-mc-pairs": 0, "views-mc-select": 1, "views-mc-shape": 2}
     jobs.sort(key=lambda j: order.get(j.name, 9))
     results = run_jobs(ctx, jobs, parallel=4 if ctx.tier == "thorough" else 3)
+    log("TLC runs done at %.1fs" % ctx.timer.s())
     names_replay(ctx, exe, results)
+    log("names replayed at %.1fs" % ctx.timer.s())
     views_replay(ctx, exe, results)
+    log("views replayed at %.1fs" % ctx.timer.s())
     scope_replay(ctx, exe, results)
+    log("scopes replayed at %.1fs" % ctx.timer.s())
     scope_traces(ctx, exe)
+    log("scope traces validated at %.1fs" % ctx.timer.s())
     for e in range(ctx.extra.get("scope_executions_validated", 0)):
         ctx.distinct.add(("exec", e))
     ctx.evaluations = (ctx.extra.get("names_replays", 0) + ctx.extra.get("views_instrument_cases_compared", 0)
